@@ -9,11 +9,15 @@ Property clause → theorem
                                                                                     → `C11.bid_improves_by_factor`
   (increasing bids `new ≥ old + ⌈factor·old⌉`; mirrored for debt auctions, where the bid is a decreasing lot:
    `new ≤ old − ⌈factor·old⌉`; `⌈·⌉` is the code's `MulInt.Ceil.TruncateInt`, and `C11.bid_factor_is_at_least_the_factor`
-   shows that increment is ≥ `factor·old` as an exact rational and < 1 unit above it)
+   shows that increment is ≥ `factor·old` as an exact rational and < 1 unit above it; `C11.bid_never_worsens`:
+   the accepted bid is never worse than the standing one as long as the standing debt lot is not negative, which
+   `C11.debt_lots_stay_nonneg` guarantees once `ValidateBasic` refuses negative debt bids;
+   `C11.debt_bid_improves_counterexample`: on the tree as found a debt bid can be *higher* than the standing one)
 * "the outbid bidder is refunded in full in the same transaction"                   → `C11.outbid_refunded_in_full`
                                                                                       (+ `C11.bid_moves_only_the_two_bidders`)
 * "at the end exactly one bidder receives the lot"                                  → `C11.exactly_one_winner`
-                                                                                      (+ `C11.no_close_without_a_bid`, `C11.closed_auctions_have_a_winner`)
+                                                                                      (+ `C11.no_close_without_a_bid`, `C11.closed_auctions_have_a_winner`,
+                                                                                       `C11.emergency_close_refunds_bidder` for the shutdown path)
 * "while no one else has lost anything"                                             → `C11.losers_whole` (+ `C11.user_ledger`)
 * "a limit-bid depositor can withdraw or cancel at most their own outstanding deposit, in the deposited asset"
                                                                                     → `C11.limit_withdraw_le_own_deposit`
@@ -25,7 +29,8 @@ Property clause → theorem
 
 Quantification: every finite list of ops — `start` (activator), `bid` / `dbid` (user messages with arbitrary sender,
 auction id, denomination, amount), `tick` (any block time), `settle` (the block hook looking at any auction; it closes
-or restarts only when the auction's window has passed), and for the second generation also `deposit` / `cancel` /
+or restarts only when the auction's window has passed, or at once under emergency shutdown), `esm` (the shutdown
+status flips), and for the second generation also `deposit` / `cancel` /
 `withdraw` with arbitrary denomination and amount — from any state with no live auctions.  The only hypothesis on
 the history is that user messages are not signed by the custody module account (`UsersOnly`).  The real block hook
 is the op list `blockOps` (`C11.real_block_hook_is_covered`).
@@ -102,6 +107,54 @@ theorem bid_factor_is_at_least_the_factor (f : Dec) (x : Int) :
 example : ceilChange 10000000000000000 1000 = 10 ∧ ceilChange 10000000000000000 1001 = 11 ∧
     ceilChange 333333333333333333 1000000000 = 333333334 ∧ ceilChange 0 5 = 0 := by decide
 
+/-- **An accepted bid never worsens the standing one** (bid factor ≥ 0): an increasing bid is at least the standing
+bid; a decreasing (debt) bid is at most the standing lot *provided that lot is not negative*. -/
+theorem bid_never_worsens {s s' : State} {op : Op} (h : step s op = some s') (who : Acct) (id : Nat) (amt : Int)
+    (hop : (∃ app mp dn, op = .bid who app mp id dn amt) ∨ (∃ app mp dn ed ea, op = .dbid who app mp id dn amt ed ea)) :
+    ∃ a, findAuc s.live id = some a ∧ ∀ p, a.bidder = some p → 0 ≤ a.factor →
+      (a.kind.increasing = true → 0 ≤ a.pay → a.pay ≤ amt) ∧ (a.kind.increasing = false → 0 ≤ a.lot → amt ≤ a.lot) := by
+  obtain ⟨a, a', hf, _, _, hi, hd⟩ := bid_improves_by_factor h who id amt hop
+  refine ⟨a, hf, ?_⟩
+  intro p hp hfac
+  constructor
+  · intro hk h0
+    have := (hi hk).2.2 p hp
+    have := ceilChange_nonneg a.factor a.pay hfac h0
+    omega
+  · intro hk h0
+    have := (hd hk).2.2 p hp
+    have := ceilChange_nonneg a.factor a.lot hfac h0
+    omega
+
+/-- with a `ValidateBasic` that refuses negative debt bids (`debtFloor = some fl`, `fl ≥ 0`) the standing lot of every
+debt auction stays non-negative over every history, so `bid_never_worsens` applies to every accepted debt bid -/
+theorem debt_lots_stay_nonneg (s0 : State) (ops : List Op) (h0 : s0.live = []) (fl : Int)
+    (hfl : s0.debtFloor = some fl) (hf0 : 0 ≤ fl) (hst : ∀ op ∈ ops, ∀ a, op = .start a → 0 ≤ a.lot) :
+    ∀ a ∈ (run s0 ops).live, a.kind.increasing = false → 0 ≤ a.lot :=
+  run_lotsOk s0 ops (by intro a ha; rw [h0] at ha; simp at ha) fl hfl hf0 hst
+
+/-- a first-generation debt auction: 2 000 000 tokens on offer for a payment of 200 000, bid factor 1 % -/
+def debtDemo (factor : Dec) : State :=
+  { bank := [((2, 1), 1000000), ((3, 1), 1000000), ((4, 1), 1000000)], cust := 0, coll := 1, closed := [], now := 0,
+    live := [{ app := 1, mapping := 2, id := 1, kind := .debtV1, payDenom := 1, lotDenom := 2, pay := 200000, lot := 2000000,
+               lot0 := 2000000, bidder := none, nbids := 0, factor := factor, endT := 300, bidEndT := 300, dur := 300, bidDur := 300 }] }
+
+/-- **Counterexample (negative debt bids, tree as found: `MsgPlaceDebtBid.ValidateBasic` checks no coin)**: after an
+opening bid, a bid of −1000 is accepted; then −990, which is *higher* than the standing −1000, is accepted as an
+"improvement".  With an (absurd) bid factor of 250 % the bound flips sign: after −3 000 000 a bid of 4 500 000 is
+accepted and the close mints 4 500 000 tokens to the bidder although the auction offered at most 2 000 000.  With
+`debtFloor = some 1` (a `ValidateBasic` that demands a positive bid) all of these are refused. -/
+theorem debt_bid_improves_counterexample :
+    (((run (debtDemo 10000000000000000) [.dbid 2 1 2 1 2 2000000 1 200000, .dbid 3 1 2 1 2 (-1000) 1 200000,
+          .dbid 4 1 2 1 2 (-990) 1 200000]).live.map fun a => (a.lot, a.bidder)) = [(-990, some 4)]) ∧
+    (((run (debtDemo 2500000000000000000) [.dbid 2 1 2 1 2 2000000 1 200000, .dbid 3 1 2 1 2 (-3000000) 1 200000,
+          .dbid 4 1 2 1 2 4500000 1 200000, .tick 301, .settle 1]).closed.map fun a => (a.lot, a.bidder)) = [(4500000, some 4)]) ∧
+    (bal (run (debtDemo 2500000000000000000) [.dbid 2 1 2 1 2 2000000 1 200000, .dbid 3 1 2 1 2 (-3000000) 1 200000,
+          .dbid 4 1 2 1 2 4500000 1 200000, .tick 301, .settle 1]).bank 4 2 = 4500000) ∧
+    (((run { debtDemo 10000000000000000 with debtFloor := some 1 } [.dbid 2 1 2 1 2 2000000 1 200000,
+          .dbid 3 1 2 1 2 (-1000) 1 200000, .dbid 4 1 2 1 2 0 1 200000]).live.map fun a => (a.lot, a.bidder)) = [(2000000, some 2)]) := by
+  decide
+
 /-- what an accepted bid moves: the new bidder pays exactly its own stake, the previous bidder gets back exactly
 the stake it had paid, and no other account (besides the custody) changes in any denomination -/
 theorem bid_moves_only_the_two_bidders {s s' : State} {op : Op} (h : step s op = some s') (who : Acct) (id : Nat) (amt : Int)
@@ -148,18 +201,20 @@ theorem outbid_refunded_in_full {s s' : State} {op : Op} (h : step s op = some s
     have : ¬ a.payDenom = e := fun c => he c.symm
     simp [this]
 
-/-- **At the end exactly one bidder receives the lot.**  When the block hook closes an auction, the standing
-bidder `w` receives exactly the lot, and no other user account changes in any denomination. -/
+/-- **At the end exactly one bidder receives the lot.**  When the block hook closes an auction (normal operation:
+the app is not in emergency shutdown, or the auction is second-generation), the standing bidder `w` receives
+exactly the lot, and no other user account changes in any denomination. -/
 theorem exactly_one_winner {s s' : State} {id : Nat} (h : step s (.settle id) = some s')
-    (a : Auction) (hf : findAuc s.live id = some a) (w : Acct) (hw : a.bidder = some w) :
+    (a : Auction) (hf : findAuc s.live id = some a) (w : Acct) (hw : a.bidder = some w) (hn : emergency s a = false) :
     s'.closed = a :: s.closed ∧ s'.live = delAuc s.live id ∧
     ∀ x d, x ≠ s.cust → x ≠ s.coll →
       bal s'.bank x d = bal s.bank x d + (if w = x ∧ a.lotDenom = d then payout a else 0) := by
-  obtain ⟨a2, hf2, _, hr⟩ := settle_spec h
+  obtain ⟨a2, hf2, hr⟩ := settle_spec h
   rw [hf] at hf2
   have := Option.some.inj hf2
   subst this
-  rcases hr with ⟨hb, _⟩ | ⟨w2, b, hb, hcb, hs⟩
+  rcases hr with ⟨he, _⟩ | ⟨_, _, ⟨hb, _⟩ | ⟨w2, b, hb, hcb, hs⟩⟩
+  · rw [hn] at he; simp at he
   · rw [hw] at hb; simp at hb
   · rw [hw] at hb
     have := Option.some.inj hb
@@ -167,23 +222,43 @@ theorem exactly_one_winner {s s' : State} {id : Nat} (h : step s (.settle id) = 
     subst hs
     exact ⟨rfl, rfl, fun x d h1 h2 => closeBank_user hcb x d h1 h2⟩
 
-/-- an auction without a bid is never closed: the hook restarts it and moves no funds -/
+/-- an auction without a bid is never closed in normal operation: the hook restarts it and moves no funds -/
 theorem no_close_without_a_bid {s s' : State} {id : Nat} (h : step s (.settle id) = some s')
-    (a : Auction) (hf : findAuc s.live id = some a) (hb : a.bidder = none) :
+    (a : Auction) (hf : findAuc s.live id = some a) (hb : a.bidder = none) (hn : emergency s a = false) :
     s'.bank = s.bank ∧ s'.closed = s.closed := by
-  obtain ⟨a2, hf2, _, hr⟩ := settle_spec h
+  obtain ⟨a2, hf2, hr⟩ := settle_spec h
   rw [hf] at hf2
   have := Option.some.inj hf2
   subst this
-  rcases hr with ⟨_, hs⟩ | ⟨w2, b, hb2, _, _⟩
+  rcases hr with ⟨he, _⟩ | ⟨_, _, ⟨_, hs⟩ | ⟨w2, b, hb2, _, _⟩⟩
+  · rw [hn] at he; simp at he
   · subst hs; exact ⟨rfl, rfl⟩
   · rw [hb] at hb2; simp at hb2
 
-/-- the hook acts only when the window has passed -/
+/-- the hook acts only when the window has passed (or, first generation, under emergency shutdown) -/
 theorem settle_only_when_due {s s' : State} {id : Nat} (h : step s (.settle id) = some s') :
-    ∃ a, findAuc s.live id = some a ∧ due s.now a = true := by
-  obtain ⟨a, hf, hd, _⟩ := settle_spec h
-  exact ⟨a, hf, hd⟩
+    ∃ a, findAuc s.live id = some a ∧ (due s.now a = true ∨ emergency s a = true) := by
+  obtain ⟨a, hf, hr⟩ := settle_spec h
+  rcases hr with ⟨he, _⟩ | ⟨_, hd, _⟩
+  · exact ⟨a, hf, Or.inr he⟩
+  · exact ⟨a, hf, Or.inl hd⟩
+
+/-- **Emergency shutdown loses nobody anything**: when the first-generation hook closes an auction because the
+app is in emergency shutdown, the standing bidder gets back exactly its stake, nobody receives the lot, no other
+user account moves, and the auction is not recorded as won. -/
+theorem emergency_close_refunds_bidder {s s' : State} {id : Nat} (h : step s (.settle id) = some s')
+    (a : Auction) (hf : findAuc s.live id = some a) (he : emergency s a = true) :
+    s'.closed = s.closed ∧ s'.live = delAuc s.live id ∧
+    ∀ x d, x ≠ s.cust → x ≠ s.coll →
+      bal s'.bank x d = bal s.bank x d + (if a.bidder = some x ∧ a.payDenom = d then a.pay else 0) := by
+  obtain ⟨a2, hf2, hr⟩ := settle_spec h
+  rw [hf] at hf2
+  have := Option.some.inj hf2
+  subst this
+  rcases hr with ⟨_, b, heb, hs⟩ | ⟨hn, _⟩
+  · subst hs
+    exact ⟨rfl, rfl, fun x d h1 h2 => esmBank_user heb x d h1 h2⟩
+  · rw [he] at hn; simp at hn
 
 /-- every auction that was ever closed had exactly one winner on record -/
 theorem closed_auctions_have_a_winner (s0 : State) (ops : List Op) (h0 : s0.closed = []) :
